@@ -44,7 +44,9 @@ structure State where
 deriving DecidableEq, Repr, Inhabited
 
 inductive Op where
-  | srfCall (seed : SeedArg) (pos : Nat) (npts : Nat)   -- SRF.__call__(pos, seed, mesh_type); `pos` identifies (positions, mesh type)
+  | srfCall (seed : SeedArg) (pos : Option Nat) (npts : Nat)   -- SRF.__call__(pos, seed, mesh_type); `some p` identifies (positions, mesh type),
+                                              -- `none` = no position argument: the positions stored on the field object are evaluated again
+  | setPos (pos : Nat)                        -- Field.set_pos(pos, mesh_type)
   | modelChange (m : MVal)                    -- in-place change of the field's model
   | genSetSeed (s : Option Nat)               -- generator.seed = s
   | genSetModeNo (n : Nat)                    -- generator.mode_no = n
@@ -92,13 +94,24 @@ def genCall (s : State) (npts : Nat) (addNugget : Bool) (pos : Option Nat := non
        nug := s.genModel.nug })
   else (s, { field := s.derived, noise := none, pos })
 
-/-- `SRF.__call__` up to the point where the generator runs: `generator.update(model, seed)`, then `pre_pos` -/
-def preCall (s : State) (a : SeedArg) (p : Nat) : State := setPos (update s s.srfModel a) p
+/-- `SRF.__call__` up to the point where the generator runs: `generator.update(model, seed)`, then `pre_pos`
+    (which stores the positions if some are given and otherwise leaves the stored ones) -/
+def preCall (s : State) (a : SeedArg) (p : Option Nat) : State :=
+  match p with
+  | some p => setPos (update s s.srfModel a) p
+  | none => update s s.srfModel a
 
+/-- A field-level call evaluates the position set that is stored after `pre_pos` — the given one, or, for a call
+    without position argument, the one an earlier call / `set_pos` stored.  The geometry of the field's CURRENT model is
+    applied to it (the token of the output carries the generator's model, which `update` has just made the field's
+    model).  With nothing stored `pre_pos` raises (`ValueError`, no output) — after `generator.update` has run. -/
 def step (s : State) : Op → State × Option Out
   | .srfCall a p n =>
-    let (s, o) := genCall (preCall s a p) n true (some p)
-    (s, some o)
+    let s' := preCall s a p
+    match s'.pos with
+    | some q => ((genCall s' n true (some q)).1, some (genCall s' n true (some q)).2)
+    | none => (s', none)
+  | .setPos p => (setPos s p, none)
   | .modelChange m => ({ s with srfModel := m }, none)
   | .genSetSeed x => (setSeed s x, none)
   | .genSetModeNo n => (if n ≠ s.modeNo then resetSeed { s with modeNo := n } .keep else s, none)
@@ -193,7 +206,8 @@ def parseSeedArg (j : Json) : SeedArg :=
 def parseOp (j : Json) : Except String Op := do
   let k ← getStr j "k"
   match k with
-  | "srf_call" => return .srfCall (parseSeedArg j) ((optNat j "pos").getD 0) (← getNat j "n")
+  | "srf_call" => return .srfCall (parseSeedArg j) (optNat j "pos") (← getNat j "n")
+  | "set_pos" => return .setPos (← getNat j "pos")
   | "model" => return .modelChange { id := ← getNat j "id", nug := nugLevel j }
   | "gen_seed" => return .genSetSeed (optNat j "s")
   | "gen_mode_no" => return .genSetModeNo (← getNat j "n")
@@ -234,7 +248,11 @@ def ops (op : String) (j : Json) : Option (Except String Json) :=
           let fresh := derive s'.srfModel s'.seed s'.modeNo s'.epoch
           out := out.push (Json.mkObj [("out", outJson r), ("fresh", derivedJson fresh),
             ("recipe", recipeJson (recipe (preGen s o))), ("stored_pos", optJ s'.pos)])
-        | none => pure ()
+        | none =>
+          match o with
+          | .srfCall _ _ _ =>     -- a field-level call without output: `ValueError` (no positions stored)
+            out := out.push (Json.mkObj [("error", Json.str "no_pos"), ("stored_pos", optJ s'.pos)])
+          | _ => pure ()
         s := s'
       return Json.arr out)
   | "gen_randmeth" => some (do
